@@ -382,12 +382,13 @@ def solve_affine_equations_for(unknowns, equations):
     for i_eqn, (lhs, rhs) in enumerate(equations):
         for lhs_factor, coeffs in [(1, coeff_coll(lhs)), (-1, coeff_coll(rhs))]:
             for key, coeff in coeffs.items():
+                # accumulate: a name may occur on both sides of an equation
                 if key in unknowns_set:
-                    mat[i_eqn, unknown_idx_lut[key]] = lhs_factor*coeff
+                    mat[i_eqn, unknown_idx_lut[key]] += lhs_factor*coeff
                 elif key in parameters:
-                    rhs_mat[i_eqn, parameter_idx_lut[key]] = -lhs_factor*coeff
+                    rhs_mat[i_eqn, parameter_idx_lut[key]] += -lhs_factor*coeff
                 elif key == 1:
-                    rhs_mat[i_eqn, -1] = -lhs_factor*coeff
+                    rhs_mat[i_eqn, -1] += -lhs_factor*coeff
                 else:
                     raise ValueError(f"key '{key}' not understood")
 
